@@ -154,7 +154,11 @@ type SackPeer struct {
 	ln   *net.TCPListener
 
 	// behaviour
-	ISN        uint32 // becomes the driver's localInitSeq (the SYN-ACK's ack number)
+	ISN uint32 // becomes the driver's localInitSeq (the SYN-ACK's ack number)
+	// ISNFor, when set, gives each capture handle (connection) its own initial sequence number
+	ISNFor func(handle int) uint32
+	// NoBlocks: handles listed here get plain ACKs (the harness model consults it)
+	ISNs       map[int]uint32
 	ServerISN  uint32
 	SackPerm   bool
 	TS         bool
@@ -265,6 +269,10 @@ func (p *SackPeer) OnFilter(h *simnet.Handle, spec packets.PacketFilterSpec) {
 
 // SynAckBytes builds the simulated SYN-ACK for local port lp.
 func (p *SackPeer) SynAckBytes(local netip.Addr, lp uint16) []byte {
+	return p.synAckBytes(local, lp, p.ISN)
+}
+
+func (p *SackPeer) synAckBytes(local netip.Addr, lp uint16, isn uint32) []byte {
 	var opts []byte
 	opts = append(opts, wirefmt.OptMSS(1460)...)
 	if p.SackPerm {
@@ -276,7 +284,7 @@ func (p *SackPeer) SynAckBytes(local netip.Addr, lp uint16) []byte {
 	opts = append(opts, wirefmt.OptNop()...)
 	opts = append(opts, wirefmt.OptWS(7)...)
 	opts = append(opts, p.ExtraOpts...)
-	seg := wirefmt.TCP{SrcPort: p.Addr.Port(), DstPort: lp, Seq: p.ServerISN, Ack: p.ISN, Flags: wirefmt.TCPSyn | wirefmt.TCPAck, Window: 65160, Options: opts}.Marshal(p.Addr.Addr(), local)
+	seg := wirefmt.TCP{SrcPort: p.Addr.Port(), DstPort: lp, Seq: p.ServerISN, Ack: isn, Flags: wirefmt.TCPSyn | wirefmt.TCPAck, Window: 65160, Options: opts}.Marshal(p.Addr.Addr(), local)
 	return wirefmt.IPv4{TTL: 64, Proto: wirefmt.ProtoTCP, Src: p.Addr.Addr(), Dst: local, Flags: 2}.Marshal(seg)
 }
 
@@ -302,8 +310,18 @@ func (p *SackPeer) OnReadStart(w *simnet.Wire, h *simnet.Handle) {
 	p.LocalPorts[h.Idx] = ra.Port()
 	show := p.ShowSynAck
 	p.mu.Unlock()
+	isn := p.ISN
+	if p.ISNFor != nil {
+		isn = p.ISNFor(h.Idx)
+	}
+	p.mu.Lock()
+	if p.ISNs == nil {
+		p.ISNs = map[int]uint32{}
+	}
+	p.ISNs[h.Idx] = isn
+	p.mu.Unlock()
 	if show {
-		f := w.NewFrame(p.SynAckBytes(ra.Addr().Unmap(), ra.Port()), "handshake", nil)
+		f := w.NewFrame(p.synAckBytes(ra.Addr().Unmap(), ra.Port(), isn), "handshake", nil)
 		p.mu.Lock()
 		p.SynAcks[h.Idx] = f
 		p.mu.Unlock()
